@@ -46,6 +46,7 @@ Section Lines.
     intros H1 H2 NE W. unfold decode_list.
     destruct (join_nolead es NE W) as [Hl Hne]. pose proof (join_notrail es NE W) as Ht.
     rewrite (trim_pad strip w1 (join [d] es) w2 H1 H2 Hl Ht).
+    destruct (join [d] es) as [|c0 t0] eqn:J; [congruence|]. rewrite <- J.
     rewrite split_join; [|exact NE|eapply Forall_impl; [|exact W]; now intros e (_&F&_)].
     rewrite <- (map_id es) at 2. apply map_ext_in. intros e He. rewrite Forall_forall in W. destruct (W e He) as (_&_&L&T).
     pose proof (trim_pad strip [] e [] (Forall_nil _) (Forall_nil _) L T) as E. cbn [app] in E. now rewrite app_nil_r in E.
